@@ -725,6 +725,20 @@ pub fn longrun_ops(cfg: &Cfg, pattern: &str, n: usize) -> Vec<Op> {
                 ops.push(Op::Ins(i as u8, 1));
             }
             ops.push(Op::Sync);
+            // the keys that are going to be invalidated are popular (their leftovers must
+            // not count as victims), the newcomer a little less, the live victims not at all
+            for k in [0u8, 1, 2, 4] {
+                for _ in 0..4 {
+                    ops.push(Op::Get(k));
+                }
+            }
+            ops.push(Op::Sync);
+            // (one more lookup of every resident in insertion order restores the recency
+            // order 0, 1, 2, ... with the leftovers-to-be at the least recently used end)
+            for i in 0..n {
+                ops.push(Op::Get(i as u8));
+            }
+            ops.push(Op::Sync);
             for _ in 0..3 {
                 ops.push(Op::Get(n as u8));
             }
